@@ -903,3 +903,144 @@ Proof.
 Qed.
 
 End Pure.
+
+(* ------------------------------------------------------------------ *)
+(* mixed-radix encoding of bounded tuples (for the explicit bound)      *)
+(* ------------------------------------------------------------------ *)
+
+Fixpoint prodl (bs : list nat) : nat := match bs with [] => 1 | b :: r => b * prodl r end.
+Fixpoint enc (bs l : list nat) : nat :=
+  match bs, l with
+  | b :: bs', x :: l' => x * prodl bs' + enc bs' l'
+  | _, _ => 0
+  end.
+
+Lemma enc_lt : forall bs l, Forall2 lt l bs -> enc bs l < prodl bs.
+Proof.
+  intros bs l H. induction H as [|x b l bs Hx _ IH]; cbn [enc prodl]; [lia|].
+  assert (S x * prodl bs <= b * prodl bs) by (apply Nat.mul_le_mono_r; lia). lia.
+Qed.
+
+Lemma enc_mono : forall bs l l', lexlt l l' -> Forall2 lt l bs -> length l' = length bs ->
+  enc bs l < enc bs l'.
+Proof.
+  induction bs as [|b bs IH]; intros l l' H F L.
+  - inversion F; subst. destruct H.
+  - inversion F as [|x b0 l0 bs0 Hx F']; subst. destruct l' as [|x' l0']; [destruct H|].
+    cbn [length] in L. injection L as L. cbn [lexlt enc] in *.
+    pose proof (enc_lt _ _ F') as He.
+    destruct H as [H | [-> H]].
+    + assert (S x * prodl bs <= x' * prodl bs) by (apply Nat.mul_le_mono_r; lia). lia.
+    + specialize (IH _ _ H F' L). lia.
+Qed.
+
+Section Bounds.
+Variable D : desc.
+
+Definition max_vars : nat := fold_right (fun c a => Nat.max (length (c_vars c)) a) 0 (pool D).
+
+Lemma nv_le : forall oc, nv D oc <= max_vars.
+Proof.
+  intros [ci|]; cbn [nv]; [|lia]. destruct (nth_error (pool D) ci) as [c|] eqn:E; [|lia].
+  apply nth_error_In in E. unfold max_vars. induction (pool D) as [|c0 r IH]; [destruct E|].
+  cbn [fold_right]. destruct E as [-> | E]; [lia | specialize (IH E); lia].
+Qed.
+
+Definition bsC : list nat := [21; ncmds D + max_vars + 1; 7; 3 * asz_of D + 14].
+Definition bsU : list nat := [10; max_vars + 1; 3 * usz_of D + 14].
+
+Lemma frank_lt : forall W wait ws wb p, frank W wait ws wb p < 3 * W + 14.
+Proof.
+  intros W wait ws wb p. unfold frank. pose proof (wbl_le W wb p).
+  destruct wait, ws; cbn [wsw]; lia.
+Qed.
+
+Lemma tyr_lt : forall t, tyr t < 7.
+Proof. destruct t; cbn; lia. Qed.
+
+Lemma cC_bounded : forall s, Forall2 lt (cC D s) bsC.
+Proof.
+  intros s. unfold cC, cfl, fpre, bsC.
+  pose proof (nv_le (k_cmd (k s))). pose proof (tyr_lt (k_type (k s))).
+  pose proof (frank_lt (asz_of D) true (k_wstate (k s)) (k_wbuf (k s)) (k_position (k s))).
+  pose proof (frank_lt (asz_of D) false (k_wstate (k s)) (k_wbuf (k s)) (k_position (k s))).
+  destruct (k_state (k s)); try (repeat constructor; lia);
+    destruct (k_wafter (k s)); cbn [app]; repeat constructor; lia.
+Qed.
+
+Lemma cU_bounded : forall s, Forall2 lt (cU D s) bsU.
+Proof.
+  intros s. unfold cU, ufl, upre, bsU.
+  pose proof (nv_le (u_cmd (u s))).
+  pose proof (frank_lt (usz_of D) true (u_wstate (u s)) (u_wbuf (u s)) (u_position (u s))).
+  pose proof (frank_lt (usz_of D) false (u_wstate (u s)) (u_wbuf (u s)) (u_position (u s))).
+  destruct (u_state (u s)); try (repeat constructor; lia);
+    destruct (u_wafter (u s)); cbn [app]; repeat constructor; lia.
+Qed.
+
+(* ranks as numbers *)
+Definition rC (s : state) : nat := enc bsC (cC D s).
+Definition rU (s : state) : nat := enc bsU (cU D s).
+Definition RC : nat := prodl bsC.
+Definition RU : nat := prodl bsU.
+
+Lemma rC_lt : forall s, rC s < RC.
+Proof. intros s. apply enc_lt, cC_bounded. Qed.
+Lemma rU_lt : forall s, rU s < RU.
+Proof. intros s. apply enc_lt, cU_bounded. Qed.
+
+Lemma rC_mono : forall s s', lexlt (cC D s') (cC D s) -> rC s' < rC s.
+Proof. intros s s' H. apply enc_mono; [exact H | apply cC_bounded | rewrite cC_len; reflexivity]. Qed.
+Lemma rU_mono : forall s s', lexlt (cU D s') (cU D s) -> rU s' < rU s.
+Proof. intros s s' H. apply enc_mono; [exact H | apply cU_bounded | rewrite cU_len; reflexivity]. Qed.
+
+(* frames of the handler continuations on the event queue *)
+Definition FR (f : fsm) (s s' : state) : Prop :=
+  match f with ATCMD => u s' = u s | UNSOL => u_count (u s') = u_count (u s) end.
+
+Lemma TG_FR : forall f nc nu s s', TG D f nc nu s s' -> FR f s s'.
+Proof. intros [|] nc nu s s' H; cbn; apply H. Qed.
+
+Lemma write_tail_u : forall code s, u (write_tail code s) = u s.
+Proof. intros code s. unfold write_tail. repeat match goal with |- context [if ?x then _ else _] => destruct x end; reflexivity. Qed.
+
+Lemma start_print_cmd_list_u : forall s, u (start_print_cmd_list D s) = u s.
+Proof. intros s. unfold start_print_cmd_list. destruct (_ =? _); reflexivity. Qed.
+
+Lemma run_tail_u : forall code s, u (run_tail D code s) = u s.
+Proof.
+  intros code s. unfold run_tail.
+  repeat match goal with |- context [if ?x then _ else _] => destruct x end;
+    try reflexivity; apply start_print_cmd_list_u.
+Qed.
+
+Lemma rt_tail_FR : forall rd f r s, NH s ->
+  cmd_ok D (g_cmd f (apply_edit f (r_edit r) s)) -> FR f s (rt_tail D rd f r s).
+Proof.
+  intros rd f r s Hnh Hk. unfold rt_tail. cbv zeta.
+  pose proof (NH_apply_edit f (r_edit r) s Hnh) as H1.
+  assert (E0 : FR f s (apply_edit f (r_edit r) s)).
+  { destruct (apply_edit_eff f (r_edit r) s) as [E | (b & p & E & _)]; rewrite E; destruct f; reflexivity. }
+  set (s1 := apply_edit f (r_edit r) s) in *. clearbody s1.
+  rewrite !NH_hold_exit by exact H1.
+  assert (T : forall s', FR f s1 s' -> FR f s s') by (intros s' X; destruct f; cbn in *; congruence).
+  assert (X1 : FR f s (end_with_ok f s1)) by (apply T; destruct f; reflexivity).
+  assert (X2 : FR f s (end_with_error f s1)) by (apply T; destruct f; reflexivity).
+  assert (X3 : forall a b, FR f s (start_flush_after f a b s1)) by (intros; apply T; destruct f; reflexivity).
+  destruct (r_code r =? RC_OK)%Z; [exact X1|]. destruct (r_code r =? RC_DATA_OK)%Z; [apply X3|].
+  destruct (r_code r =? RC_DATA_NEXT)%Z; [destruct rd; apply X3|].
+  destruct (r_code r =? RC_NEXT)%Z.
+  { apply T. destruct rd; [eapply TG_FR, spfra_TG | eapply TG_FR, spfta_TG]; assumption. }
+  destruct (r_code r =? RC_HOLD)%Z; [apply T; destruct f; reflexivity|].
+  destruct (r_code r =? RC_HOLD_EXIT_OK)%Z; [exact X1|]. destruct (r_code r =? RC_HOLD_EXIT_ERROR)%Z; [exact X2|].
+  destruct (_ && _); [|exact X2]. destruct f; [apply T; apply start_print_cmd_list_u | exact X1].
+Qed.
+
+Lemma PG_cap : forall f s s', PG D f s s' -> u_count (u s') <= u_count (u s).
+Proof.
+  intros [|] s s' H; cbn in H.
+  - destruct H as (A & _). rewrite A. lia.
+  - destruct H as (_ & _ & C). unfold mU in C. cbn [lexlt] in C. lia.
+Qed.
+
+End Bounds.
